@@ -33,6 +33,10 @@ class Evaluator(Unit):
             vals = [g.dy(kmax=8, jmax=1) for _ in range(cnt)]
             if comp >= 3 and k % 2 == 1:
                 vals = [0.0 if r.random() < 0.35 else v for v in vals]
+            tri = comp == 4 and n >= 2 and k % 20 == 9
+            if tri:
+                # a Hessian stored as one triangle only (lower part exactly zero and not stored, upper part non-zero)
+                vals = [(0.0 if i > j else (v if v != 0.0 else 1.0)) for i in range(n) for j in range(n) for v in [vals[i * n + j]]]
             if r.random() < 0.5 and cnt:
                 for _ in range(r.randint(1, 2)):
                     vals[r.randrange(cnt)] = r.choice(BAD)
@@ -40,7 +44,8 @@ class Evaluator(Unit):
                           "warm": len(cases) % 3 == 1,
                           # stored pattern of the matrices: every entry, or exact zeros left out at random (the same
                           # matrix; for a Hessian the stored pattern is then in general not symmetric)
-                          "drop": [r.random() < 0.5 for _ in range(cnt)] if (comp >= 3 and k % 2 == 1) else None})
+                          "drop": ([i > j for i in range(n) for j in range(n)] if tri else
+                                   [r.random() < 0.5 for _ in range(cnt)] if (comp >= 3 and k % 2 == 1) else None)})
         return cases
 
     def impl(self, case):
